@@ -470,8 +470,9 @@ def verdict_rule(f, P, rep):
                 t = leak.blocks[cb]['term']
                 if t['k'] == 'switch':
                     d = dpl.of_operand(t['d'], (cb, 10 ** 6))
-                    if any(x[0] == 'fn' and x[1].endswith('is_allocated_cluster_in_use') for x in d):
-                        det = True
+                    if any(x[0] == 'fn' and x[1].endswith(('is_allocated_cluster_in_use', 'RangeInclusive::<Idx>::contains',
+                                                            'iter::Iterator::any')) for x in d):
+                        det = True          # the test against the set of used clusters (helper, or written out in place)
         ok2 = bool(sets_true) and det
         detail = 'flag set at %d site(s) under the in-use test' % len(sets_true) if ok2 else 'the returned flag is not set where a leak is detected'
     rep.ob('C20.2', 'check_cluster_leak: detection sets the returned flag', ok2, detail)
